@@ -159,9 +159,12 @@ func (s *Session) loopSend() {
 			return
 		}
 		bs, ok = qItem.([]byte)
-		if !ok || len(bs) == 0 {
+		if !ok {
 			s.b.Logger().Error("invalid.send.q", zap.Any("q", qItem))
 			return
+		}
+		if len(bs) == 0 {
+			continue
 		}
 		err = s.send(bs)
 		if err != nil {
